@@ -11,7 +11,10 @@ LEVEL = "exploration"
 LEVEL_TEXT = ("Each execution sends one malformed byte stream (raw or built from protocol elements with inconsistent fields: absurd/negative "
               "Content-Length, bad netstring lengths, FastCGI records of any type/role/length, truncation, half-close, reset) under a generated "
               "read/write schedule to a live service, while a well-formed probe on a second connection and one afterwards must be answered exactly; "
-              "sanitizers watch memory safety, the event loop must keep running, handler calls are bounded by the requests the bytes can hold.")
+              "sanitizers watch memory safety (peer-supplied lengths may not drive allocations of a GiB), the event loop must keep running, handler calls "
+              "are bounded by the requests the bytes can hold, and streams that hold no acceptable request in any reading (header section without end "
+              "in 32 KiB, FastCGI STDIN interrupted by a record of another type while body bytes are owed) must not reach the application at all. "
+              "Structured builders cover request-target forms, cookie grammar, many-header keep-alive sequences, multipart bodies, FastCGI record soup.")
 LEVEL_NOTE = ("Sampling guided by coverage; absence of crashes is not proven. Timing (slow-loris) is out of scope; late handler calls of an "
               "iteration are only bounded while that iteration is being checked.")
 DESIGN_REF = "3/C02"
